@@ -88,7 +88,10 @@ class Names:
                 n = n + str(r.randint(0, 9)) if r.random() < 0.5 else base + n
             if n == "" or n in self.used or n in SMT_RESERVED or _spells_literal(n):
                 continue
-            if self.hr and (n in HR_RESERVED or "'" in n):
+            if self.hr and (n in HR_RESERVED or "'" in n or
+                            (_smt_simple(n) and not re.match(r"^[A-Za-z_][A-Za-z0-9_]*$", n))):
+                # the HR printer quotes exactly the names that are not SMT-LIB simple symbols, the HR lexer reads
+                # [A-Za-z_][A-Za-z0-9_]* : names in between (a.b, ?v, k!1, .def_0) are witnesses of F30, not part of the stream
                 continue
             self.used.add(n)
             self.kinds[n] = kind
@@ -96,6 +99,10 @@ class Names:
         n = base + "_%d" % len(self.used)
         self.used.add(n)
         return n
+
+
+def _smt_simple(n):
+    return re.match(r"^[~!@\$%\^&\*_\-+=<>\.\?\/A-Za-z][~!@\$%\^&\*_\-+=<>\.\?\/A-Za-z0-9]*$", n) is not None
 
 
 def _spells_literal(n):
@@ -717,6 +724,84 @@ def flat_key(f):
     return memo[id(f)]
 
 
+def hr_tokens(text):
+    toks, i, n = [], 0, len(text)
+    cur = []
+
+    def flush():
+        if cur:
+            toks.append("".join(cur))
+            del cur[:]
+    while i < n:
+        c = text[i]
+        if c in "'\"":
+            flush()
+            j = text.find(c, i + 1)
+            while c == '"' and j != -1 and j + 1 < n and text[j + 1] == '"':      # doubled quote inside a string
+                j = text.find(c, j + 2)
+            if j == -1:
+                j = n - 1
+            toks.append(text[i:j + 1])
+            i = j + 1
+            continue
+        if c in "()":
+            flush()
+            toks.append(c)
+        elif c.isspace():
+            flush()
+        else:
+            cur.append(c)
+        i += 1
+    flush()
+    return toks
+
+
+HR_NARY = ("&", "|", "+", "*")
+
+
+def hr_flat(text):
+    """the HR text as a tree of parenthesis groups in which a group made of one n-ary operator absorbs
+    sub-groups of the same operator"""
+    toks = hr_tokens(text)
+    pos = [0]
+
+    def parse():
+        items = []
+        while pos[0] < len(toks):
+            t = toks[pos[0]]
+            pos[0] += 1
+            if t == "(":
+                items.append(parse())
+            elif t == ")":
+                break
+            else:
+                items.append(t)
+        return items
+
+    def sole_op(items):
+        if len(items) >= 3 and len(items) % 2 == 1:
+            ops = set(x for x in items[1::2] if isinstance(x, str))
+            if len(ops) == 1 and all(isinstance(x, str) for x in items[1::2]):
+                o = next(iter(ops))
+                if o in HR_NARY:
+                    return o
+        return None
+
+    def flat(items):
+        items = [flat(x) if isinstance(x, list) else x for x in items]
+        o = sole_op(items)
+        if o is None:
+            return items
+        out = []
+        for k, x in enumerate(items):
+            if k % 2 == 0 and isinstance(x, list) and sole_op(x) == o:
+                out.extend(x)
+            else:
+                out.append(x)
+        return out
+    return flat(parse())
+
+
 def hr_fragment_reason(f):
     """None when f is in the fragment the HR parser is expected to read back, else the reason (counted, not reported)"""
     for n in _nodes(f):
@@ -777,7 +862,7 @@ def run_hr_roundtrip(ctx, n, lines, meta):
         if tags:
             sig["shape"] = "+".join(sorted(tags))
         t2 = g.serialize()
-        if flat_key(f) != flat_key(g):
+        if hr_flat(text) != hr_flat(t2):
             a, b = first_difference(f, g)
             ctx.report_s(dict(sig, kind="serialisation-differs", at="%s->%s" % (root_name(a), root_name(b))),
                          "the serialisation of the parsed formula differs by more than grouping: %s / %s" % (text[:200], t2[:200]),
